@@ -175,6 +175,12 @@ class P:
                 self.eat(";")
                 stmts.append(("let", p, mut, e, ann))
                 continue
+            if self.at("while"):
+                self.next()
+                c = self.expr_nostruct()
+                body = self.block()
+                stmts.append(("expr", ("while", c, body)))
+                continue
             if self.at("for"):
                 self.next()
                 p = self.pat()
@@ -689,6 +695,8 @@ class Emit:
                 return "none", (expect if expect in ("OptF", "Elem", "OptNat") else "NoneLit")
             if n == "EPS":
                 return "EPS", "Rat"
+            if n in ("true", "false") and n not in env:
+                return n, "Bool"
             if n in env:
                 return lname(n), env[n]
             raise Unsupported(f"unknown name {n}")
@@ -952,7 +960,7 @@ class Emit:
                 return f"({'sortCmp' if name == 'sort_cmp' else 'sortCmpRev'} {rr} {a})", "Ord"
             if name == "cast" and not args and tr == "NoneLit":
                 return "none", "OptF"
-            if name in ("unwrap", "cast") and not args and tr == "Bool":
+            if name in ("unwrap", "cast", "bool_") and not args and tr == "Bool":
                 return r, "Bool"
             if name in ("f64",) and not args:
                 if tr == "Nat":
@@ -1013,6 +1021,18 @@ class Emit:
                 return f"({r}.getD {a})", "Nat"
             raise Unsupported(f"method .{name}() on {tr}")
         if k == "call":
+            if (e[1] in ("Iterator::any", "Iterator::all") and len(e[2]) == 2 and e[2][1][0] == "closure"
+                    and e[2][0] in (("ref", ("mcall", ("path", "self"), "into_iter", [])),
+                                    ("mcall", ("path", "self"), "into_iter", []))
+                    and getattr(self, "plain", False) and len(e[2][1][1]) == 1 and e[2][1][1][0][0] == "pvar"):
+                # `Iterator::any(&mut self.into_iter(), |x| …)` over the plain items
+                cl = e[2][1]
+                env_b = dict(env)
+                env_b[cl[1][0][1]] = getattr(self, "elem_inner", "Rat")
+                btxt, bty = self.effect(cl[2], env_b, [], None)
+                if bty != "Bool":
+                    raise Unsupported("Iterator::any/all predicate")
+                return f"(xs.{e[1].split('::')[1]} (fun {lname(cl[1][0][1])} => {btxt}))", "Bool"
             if re.fullmatch(r"(\w+::)*zero", e[1]) and not e[2]:
                 return "(0 : Rat)", "Rat"
             if re.fullmatch(r"(\w+::)*none", e[1]) and not e[2]:
@@ -1387,11 +1407,15 @@ class Emit:
         itxt, ity = self.ex(e[3][0], env, "Elem" if e[3][0] == ("path", "None") else None)
         env_b = dict(env)
         env_b[cl[1][0][1]] = ity
-        env_b[cl[1][1][1]] = "Rat"
+        env_b[cl[1][1][1]] = getattr(self, "elem_inner", "Rat")
         btxt, bty = self.effect(cl[2], env_b, [], ity if ity in ("Elem", "OptF") else None)
         if bty != ity:
             raise Unsupported(f"vfold closure result {bty} for accumulator {ity}")
         fn = "vfoldN" if kind == "vfold_n" else "vfold"
+        if getattr(self, "elem_inner", "Rat") == "Bool":
+            if kind != "vfold":
+                raise Unsupported("vfold_n over boolean elements")
+            fn = "vfoldB"
         body = "(" + btxt + ")" if "\n" not in btxt else "(\n" + indent(btxt) + ")"
         txt = f"{fn} (fun {lname(cl[1][0][1])} {lname(cl[1][1][1])} => {body}) {itxt} xs"
         return txt, (("tuple", ("Nat", ity)) if kind == "vfold_n" else ity)
